@@ -3,6 +3,7 @@ package main
 // Path exploration: depth-first, re-execution with a decision prefix.
 
 import (
+	"go/token"
 	"fmt"
 	"sort"
 	"strings"
@@ -117,6 +118,7 @@ type HarnessCfg struct {
 	MaxViol      int
 	MaxWallS     float64
 	PreciseFmt   bool   // format symbolic integers exactly (forks on digit counts)
+	IfConvFuncs map[string]bool // functions whose scalar stores / integer joins are if-converted
 	StopAtCover  string // calibration: stop exploring once this cover label was reached
 }
 
@@ -177,6 +179,7 @@ type Engine struct {
 	initPkgs        []string
 	spec            bool
 	tick            uint64
+	lastIfPos       token.Pos
 	deadline        time.Time
 	deadlineHit     bool
 	qwhy            string
@@ -357,7 +360,7 @@ func (e *Engine) branch(cond *Term) bool {
 	e.stats.Decisions++
 	e.qwhy = "branch"
 	if e.debug {
-		e.stats.Stubs["branchsite@"+e.site()+" "+e.p.stack[len(e.p.stack)-1].String()]++
+		e.stats.Stubs["branchsite@"+e.site()+" "+e.L.fset.Position(e.lastIfPos).String()]++
 	}
 	defer func() { e.qwhy = "" }()
 	// determine feasibility of both sides
